@@ -29,6 +29,7 @@ AXIOM_WHITELIST = {"propext", "Classical.choice", "Quot.sound"}
 FORBIDDEN = ["sorry", "admit", "native_decide", "bv_decide", "implemented_by", "unsafe ", "maxHeartbeats 0"]
 
 import props as P   # per-property configuration (tools/props.py)
+import source_fingerprint as SF  # which source files of /repo differ from the tree the committed baseline was taken from
 import oracles as O  # python-side direct oracles and projections (tools/oracles.py)
 
 
@@ -264,6 +265,12 @@ def run_check(prop, tier):
     violations = []   # dicts: kind, stream, line, op, impl, model, detail, theorem ...
     notes = []
     rep = build(cfg["modules"], recheck=(tier == "thorough"))
+    try:
+        changed_sources = SF.changed()
+    except Exception:
+        changed_sources = []
+    if changed_sources:
+        notes.append("code of /repo differs from the committed baseline in %s: larger quick sample" % ", ".join(changed_sources))
 
     # ---- (a) proof obligations
     obligations = []
@@ -298,9 +305,14 @@ def run_check(prop, tier):
     distribution = {}
     if rep["harness_ok"] and os.path.exists(DRIVER):
         runs = []
+        # code of /repo changed against the committed baseline: the quick tier spends the idle cores on a larger sample
+        # (three times the shards of every state stream, four times the VM cases).  Never an alarm by itself.
+        boost = (not thorough) and bool(changed_sources) and os.environ.get("VERIF_NO_BOOST") != "1"
         for s in cfg["streams"]:
             name = s["name"]
             count = s["thorough"] if thorough else s["quick"]
+            if boost:
+                count = min(s["thorough"], count * (3 if name not in ("codec", "weight", "exec", "feemult", "confirm") else 4))
             runs.append((name, count, None, ""))
             for i, threads in enumerate(s.get("rayon", []) if thorough else s.get("rayon", [])[:2]):
                 runs.append((name, max(1, count // 3), {"RAYON_NUM_THREADS": str(threads)}, "-t%s" % threads))
@@ -311,7 +323,7 @@ def run_check(prop, tier):
             if thorough:
                 nsh = SHARDS if (env is None and count >= 4 * SHARDS and name not in VMS) else 1
             else:
-                nsh = QSHARDS if (env is None and count >= 8 * QSHARDS and name not in VMS) else 1
+                nsh = (QSHARDS * 3 if boost else QSHARDS) if (env is None and count >= 8 * QSHARDS and name not in VMS) else 1
             for k in range(nsh):
                 sharded.append((name, max(1, count // nsh), env, tag + ("-s%d" % k if nsh > 1 else ""), seed * 1000 + k if nsh > 1 else seed))
         runs5 = sharded
